@@ -80,6 +80,33 @@ def pSemi : P Unit := do
 def verdict (b : Bool) : String := if b then "pass" else "fail"
 
 def ops : List (String × Op) := [
+  ("xform", do
+      let a ← pText; let p ← pStr; let raw ← pRawLoc
+      let (want, mustAnswer) ← (do
+        match (← tok) with
+        | "rs" => do
+            match (← tok) with
+            | "+" => pure (some Strand.plus, true) | "-" => pure (some Strand.minus, true)
+            | "." => pure (some Strand.unstranded, true)
+            | t => throw s!"strand? {t}"
+        | "rev2" => pure (none, true) | "rp" => pure (none, true) | "opt" => pure (none, true)
+        | "sh0" => pure (none, true)
+        | t => throw s!"xform? {t}" : P (Option Strand × Bool))
+      pArrow
+      let ans ← pAns (do
+        let r ← pRawLoc; pSemi
+        let sq ← (do
+          match (← get) with
+          | "err" :: _ => do let _ ← pRest tok; pure none
+          | "err!" :: _ => do let _ ← pRest tok; pure none
+          | _ => do let d ← pStr; pure (some d) : P (Option Str))
+        pure (rawToLocation r, sq))
+      match specBuildOn p.length raw with
+      | none => pure (verdict ans.isNone)
+      | some l =>
+        match ans with
+        | none => pure (verdict (l == .empty && mustAnswer))     -- only EmptyLocation may refuse these calls
+        | some (res, sq) => pure (verdict (okXform p a l want res sq))),
   ("extract", do
       let a ← pText; let p ← pStr; let raw ← pRawLoc; pArrow; let ans ← pAns pStr
       match specBuildOn p.length raw with
